@@ -582,10 +582,13 @@ Lemma rosenbrock_not_convex : exists x z, length z = length x /\ rosenbrock_v Ro
 Proof. exists [0; 1], [1; 1]. split; [reflexivity|]. unfold rosenbrock_v, rosenbrock_g, rosen_phi, rosen_pa, rosen_pb. evalR. lra. Qed.
 Lemma dixon_not_convex : exists x z, length z = length x /\ dixon_v Rops z < dixon_v Rops x + Rdot (dixon_g Rops x) (Rvsub z x).
 Proof. exists [1; 0], [1; /2]. split; [reflexivity|]. unfold dixon_v, dixon_g, dixon_phi, dixon_pa, dixon_pb. evalR. lra. Qed.
-(* chained CB3 I on an exact tie v1 = v2 > v3: the returned vector is the gradient of v3, not a sub-gradient *)
-Lemma cb3I_tie_not_subgradient : exists x z, length z = length x /\ cb3I_v z < cb3I_v x + Rdot (cb3I_g x) (Rvsub z x).
+(* chained CB3 I BEFORE /repo 114b02b (strict comparisons): on the exact tie v1 = v2 > v3 at (2,-3) the returned vector was the
+   gradient of the inactive v3, not a sub-gradient.  Documented fact about the OLD rule [cb3I_g_old]; the current rule is
+   proved convex below. *)
+Lemma cb3I_old_tie_not_subgradient : exists x z, length z = length x /\ cb3I_v z < cb3I_v x + Rdot (cb3I_g_old x) (Rvsub z x).
 Proof.
-  exists [2; -3], [2; -2]. split; [reflexivity|]. unfold cb3I_v, cb3I_g, cb3_phi, cb3_pa, cb3_pb, cb3_v1, cb3_v2, cb3_v3. evalR.
+  exists [2; -3], [2; -2]. split; [reflexivity|].
+  unfold cb3I_v, cb3I_g_old, cb3_phi, cb3_pa_old, cb3_pb_old, cb3_p1a, cb3_p1b, cb3_p2a, cb3_p2b, cb3_p3a, cb3_p3b, cb3_v1, cb3_v2, cb3_v3. evalR.
   assert (E5 : 0 < exp (-3 - 2) < 1) by (split; [apply exp_pos | rewrite <- exp_0; apply exp_increasing; lra]).
   assert (E4 : 0 < exp (- (2) + -2) < 1) by (split; [apply exp_pos | rewrite <- exp_0; apply exp_increasing; lra]).
   assert (E5' : 0 < exp (- (2) + -3) < 1) by (split; [apply exp_pos | rewrite <- exp_0; apply exp_increasing; lra]).
@@ -593,6 +596,114 @@ Proof.
   unfold Rmax in *; repeat match goal with
     | |- context [Rle_dec ?a ?b] => destruct (Rle_dec a b)
     | H : context [Rle_dec ?a ?b] |- _ => destruct (Rle_dec a b) end; lra.
+Qed.
+
+(* ---- chained CB3 I / II with the current rule: the gradient of an ACTIVE piece ---- *)
+Lemma Rmax3_ge : forall a b c, Rmax a (Rmax b c) >= a /\ Rmax a (Rmax b c) >= b /\ Rmax a (Rmax b c) >= c.
+Proof. intros a b c. generalize (Rmax_l a (Rmax b c)) (Rmax_r a (Rmax b c)) (Rmax_l b c) (Rmax_r b c). lra. Qed.
+
+Lemma Rgeb_true : forall a b, Rgeb a b = true -> a >= b.
+Proof. intros a b. unfold Rgeb, Rltb. destruct (Rlt_dec a b); simpl; [discriminate | lra]. Qed.
+Lemma Rgeb_false : forall a b, Rgeb a b = false -> a < b.
+Proof. intros a b. unfold Rgeb, Rltb. destruct (Rlt_dec a b); simpl; [lra | discriminate]. Qed.
+
+(* the three cases of the code: piece 1 is a maximum / piece 2 is / otherwise piece 3 is THE maximum *)
+Lemma active_piece : forall v1 v2 v3,
+  (Rgeb v1 (Rmax v2 v3) = true /\ Rmax v1 (Rmax v2 v3) = v1) \/
+  (Rgeb v1 (Rmax v2 v3) = false /\ Rgeb v2 (Rmax v1 v3) = true /\ Rmax v1 (Rmax v2 v3) = v2) \/
+  (Rgeb v1 (Rmax v2 v3) = false /\ Rgeb v2 (Rmax v1 v3) = false /\ Rmax v1 (Rmax v2 v3) = v3).
+Proof.
+  intros v1 v2 v3.
+  destruct (Rgeb v1 (Rmax v2 v3)) eqn:E1.
+  - left. split; [reflexivity|]. apply Rgeb_true in E1. apply Rmax_left. lra.
+  - right. apply Rgeb_false in E1. destruct (Rgeb v2 (Rmax v1 v3)) eqn:E2.
+    + left. apply Rgeb_true in E2. repeat split.
+      generalize (Rmax_l v1 v3) (Rmax_r v1 v3). intros. rewrite Rmax_right; [apply Rmax_left; lra|].
+      rewrite (Rmax_left v2 v3) by lra. lra.
+    + right. apply Rgeb_false in E2. repeat split.
+      unfold Rmax in *. repeat match goal with
+        | |- context [Rle_dec ?a ?b] => destruct (Rle_dec a b)
+        | H : context [Rle_dec ?a ?b] |- _ => destruct (Rle_dec a b) end; lra.
+Qed.
+
+Lemma cb3_v1_tangent : forall a b a' b', cb3_v1 a' b' >= cb3_v1 a b + cb3_p1a 0 a b * (a' - a) + cb3_p1b 0 a b * (b' - b).
+Proof. intros. unfold cb3_v1, cb3_p1a, cb3_p1b. generalize (quartic_tangent a a') (sqr_ge0 (b' - b)). nra. Qed.
+Lemma cb3_v2_tangent : forall a b a' b', cb3_v2 a' b' >= cb3_v2 a b + cb3_p2a 0 a b * (a' - a) + cb3_p2b 0 a b * (b' - b).
+Proof. intros. unfold cb3_v2, cb3_p2a, cb3_p2b. generalize (sqr_ge0 (a' - a)) (sqr_ge0 (b' - b)). nra. Qed.
+Lemma cb3_v3_tangent : forall a b a' b', cb3_v3 a' b' >= cb3_v3 a b + cb3_p3a 0 a b * (a' - a) + cb3_p3b 0 a b * (b' - b).
+Proof.
+  intros. unfold cb3_v3, cb3_p3a, cb3_p3b. replace (b - a) with (- a + b) by ring.
+  generalize (exp_tangent (- a + b) (- a' + b')). nra.
+Qed.
+
+Lemma cb3_pair : forall w a b a' b',
+  cb3_phi w a' b' >= cb3_phi w a b + cb3_pa w a b * (a' - a) + cb3_pb w a b * (b' - b).
+Proof.
+  intros w a b a' b'. unfold cb3_phi, cb3_pa, cb3_pb.
+  destruct (Rmax3_ge (cb3_v1 a' b') (cb3_v2 a' b') (cb3_v3 a' b')) as (G1 & G2 & G3).
+  destruct (active_piece (cb3_v1 a b) (cb3_v2 a b) (cb3_v3 a b)) as [(E1 & M) | [(E1 & E2 & M) | (E1 & E2 & M)]];
+    rewrite M, E1, ?E2.
+  - generalize (cb3_v1_tangent a b a' b'). unfold cb3_p1a, cb3_p1b. lra.
+  - generalize (cb3_v2_tangent a b a' b'). unfold cb3_p2a, cb3_p2b. lra.
+  - generalize (cb3_v3_tangent a b a' b'). unfold cb3_p3a, cb3_p3b. lra.
+Qed.
+
+(* the tests of the SOURCE (translated on every run, read over Z) are the tests of the model: on integer-valued pieces they
+   select the same branch -- with the strict `>` of the pre-fix code this lemma fails (a = b = c) *)
+Lemma cb3_test_bridge : forall a b c, Z.geb a (Z.max b c) = Rgeb (IZR a) (Rmax (IZR b) (IZR c)).
+Proof.
+  intros a b c.
+  assert (M : Rmax (IZR b) (IZR c) = IZR (Z.max b c)).
+  { destruct (Z.max_spec b c) as [[H ->]|[H ->]]; [apply Rmax_right | apply Rmax_left]; apply IZR_le; lia. }
+  rewrite M. unfold Rgeb, Rltb. destruct (Rlt_dec (IZR a) (IZR (Z.max b c))) as [L|L]; simpl.
+  - apply lt_IZR in L. rewrite Z.geb_leb. apply Z.leb_gt. lia.
+  - rewrite Z.geb_leb. apply Z.leb_le. apply Rnot_lt_le in L. apply le_IZR in L. lia.
+Qed.
+
+Lemma cb3_tests_as_in_source : forall v1 v2 v3,
+  src_c06_cb3I_test1 v1 v2 v3 = Rgeb (IZR v1) (Rmax (IZR v2) (IZR v3)) /\
+  src_c06_cb3I_test2 v1 v2 v3 = Rgeb (IZR v2) (Rmax (IZR v1) (IZR v3)) /\
+  src_c06_cb3II_test1 v1 v2 v3 = Rgeb (IZR v1) (Rmax (IZR v2) (IZR v3)) /\
+  src_c06_cb3II_test2 v1 v2 v3 = Rgeb (IZR v2) (Rmax (IZR v1) (IZR v3)).
+Proof.
+  intros. unfold src_c06_cb3I_test1, src_c06_cb3I_test2, src_c06_cb3II_test1, src_c06_cb3II_test2.
+  repeat split; apply cb3_test_bridge.
+Qed.
+
+Lemma cb3I_convex : forall x z, length z = length x -> cb3I_v z >= cb3I_v x + Rdot (cb3I_g x) (Rvsub z x).
+Proof.
+  intros x z H. unfold cb3I_v, cb3I_g. rewrite (bias2_same x z H). apply chain_subgrad; [exact cb3_pair | exact H].
+Qed.
+
+(* CB3 II: each of the three sums is convex with its chain gradient; the maximum with the gradient of a maximal sum *)
+Lemma cb3_s1_convex : forall x z, length z = length x ->
+  cb3_s1 z >= cb3_s1 x + Rdot (chain_g Rops cb3_p1a cb3_p1b 0 (bias2 Rops x) x) (Rvsub z x).
+Proof.
+  intros x z H. unfold cb3_s1. rewrite (bias2_same x z H).
+  apply (chain_subgrad (fun _ a b => cb3_v1 a b) cb3_p1a cb3_p1b); [|exact H]. intros w a b a' b'. apply cb3_v1_tangent.
+Qed.
+Lemma cb3_s2_convex : forall x z, length z = length x ->
+  cb3_s2 z >= cb3_s2 x + Rdot (chain_g Rops cb3_p2a cb3_p2b 0 (bias2 Rops x) x) (Rvsub z x).
+Proof.
+  intros x z H. unfold cb3_s2. rewrite (bias2_same x z H).
+  apply (chain_subgrad (fun _ a b => cb3_v2 a b) cb3_p2a cb3_p2b); [|exact H]. intros w a b a' b'. apply cb3_v2_tangent.
+Qed.
+Lemma cb3_s3_convex : forall x z, length z = length x ->
+  cb3_s3 z >= cb3_s3 x + Rdot (chain_g Rops cb3_p3a cb3_p3b 0 (bias2 Rops x) x) (Rvsub z x).
+Proof.
+  intros x z H. unfold cb3_s3. rewrite (bias2_same x z H).
+  apply (chain_subgrad (fun _ a b => cb3_v3 a b) cb3_p3a cb3_p3b); [|exact H]. intros w a b a' b'. apply cb3_v3_tangent.
+Qed.
+
+Lemma cb3II_convex : forall x z, length z = length x -> cb3II_v z >= cb3II_v x + Rdot (cb3II_g x) (Rvsub z x).
+Proof.
+  intros x z H. unfold cb3II_v, cb3II_g.
+  destruct (Rmax3_ge (cb3_s1 z) (cb3_s2 z) (cb3_s3 z)) as (G1 & G2 & G3).
+  destruct (active_piece (cb3_s1 x) (cb3_s2 x) (cb3_s3 x)) as [(E1 & M) | [(E1 & E2 & M) | (E1 & E2 & M)]];
+    rewrite M, E1, ?E2.
+  - generalize (cb3_s1_convex x z H). lra.
+  - generalize (cb3_s2_convex x z H). lra.
+  - generalize (cb3_s3_convex x z H). lra.
 Qed.
 
 (* ------------------------------------------------------------------------------------------------ *)
@@ -659,7 +770,10 @@ Definition c06_assumed_flags : list (string * (string * string * string)) := [
   ("ml:gboost-scale", ("loss.convex()", "loss.smooth()", ""));
   ("ml:linear", ("m_loss.convex()", "m_loss.smooth()&&m_l1reg<=0.0", "m_l2reg/static_cast<scalar_t>(m_isize*m_tsize)"));
   ("ml:quadratic-surrogate-fitting-function", ("loss.convex()", "loss.smooth()", ""));
-  ("ml:quadratic-surrogate-function", ("no", "yes", ""))].
+  ("ml:quadratic-surrogate-function", ("no", "yes", ""));
+  (* src/function/util.cpp (after /repo 3feb922): the eigenvalues of the SYMMETRIC part decide convexity of 1/2 x'Px *)
+  ("util:convex(P)", ("(0.5*(P.matrix()+P.matrix().transpose())).eigenvalues()", "", ""));
+  ("util:strong_convexity(P)", ("(0.5*(P.matrix()+P.matrix().transpose())).eigenvalues()", "", ""))].
 
 Lemma flags_as_assumed : src_c06_flags = c06_assumed_flags.
 Proof. reflexivity. Qed.
@@ -746,14 +860,14 @@ Proof. split; [reflexivity | exact rosenbrock_not_convex]. Qed.
 Lemma s_fn_dixon : declares "fn:dixon-price" "no" "yes" "" /\ not_convex_on (dixon_v Rops) (dixon_g Rops).
 Proof. split; [reflexivity | exact dixon_not_convex]. Qed.
 
-(* chained CB3 I is DECLARED convex, but the vector the code returns on an exact tie v1 = v2 > v3 is not a sub-gradient:
-   the full-strength statement is false of the faithful model (candidate finding, see notes/C06.md) *)
-Definition cb3I_convex_full_statement : Prop := convex_on cb3I_v cb3I_g 0.
-Lemma s_fn_cb3I_refuted : declares "fn:chained_cb3I" "yes" "no" "0.0" /\ ~ cb3I_convex_full_statement.
-Proof.
-  split; [reflexivity|]. intros H. destruct cb3I_tie_not_subgradient as (x & z & Hl & Hlt).
-  specialize (H x z Hl). lra.
-Qed.
+(* chained CB3 I / II (after /repo 114b02b): declared convex and the returned vector is a sub-gradient everywhere, ties included *)
+Lemma s_fn_cb3I : declares "fn:chained_cb3I" "yes" "no" "0.0" /\ convex_on cb3I_v cb3I_g 0.
+Proof. split; [reflexivity|]. apply convex0, cb3I_convex. Qed.
+Lemma s_fn_cb3II : declares "fn:chained_cb3II" "yes" "no" "0.0" /\ convex_on cb3II_v cb3II_g 0.
+Proof. split; [reflexivity|]. apply convex0, cb3II_convex. Qed.
+(* the rule before the fix was not a sub-gradient on the tie (2,-3) *)
+Lemma s_fn_cb3I_old_rule : ~ convex_on cb3I_v cb3I_g_old 0.
+Proof. intros H. destruct cb3I_old_tie_not_subgradient as (x & z & Hl & Hlt). specialize (H x z Hl). lra. Qed.
 
 (* non-negativity of every per-sample loss value (class-NLL excepted: see notes) *)
 Lemma s_loss_nonneg :
